@@ -118,6 +118,47 @@ CreateEdge(e, s, d, t, ok) ==
             /\ UNCHANGED <<node, col, frozen, labelIdx, bulk>>
        ELSE UNCHANGED gvars
 
+\* create_edge_with_properties: like CreateEdge, the relationship starts with property p = v
+CreateEdgeP(e, s, d, t, v, ok) ==
+    /\ s \in NodeIds /\ d \in NodeIds
+    /\ ok = (LiveN(s) /\ LiveN(d))
+    /\ IF ok
+       THEN /\ e \in EdgeIds /\ ~LiveE(e)
+            /\ ends' = [ends EXCEPT ![e] = <<s, d>>]
+            /\ etype' = [etype EXCEPT ![e] = t]
+            /\ ep' = [ep EXCEPT ![e] = v]
+            /\ buf' = buf \cup {<<s, d, e>>}
+            /\ typeIdx' = [typeIdx EXCEPT ![t] = @ \cup {e}]
+            /\ UNCHANGED <<node, col, frozen, labelIdx, bulk>>
+       ELSE UNCHANGED gvars
+
+\* create_node_stub: label + identity only (bulk loading); properties arrive through the column
+CreateNodeStub(id, lb) ==
+    /\ id \in NodeIds /\ ~LiveN(id)
+    /\ node' = [node EXCEPT ![id] = [live |-> TRUE, labels |-> {lb}, p |-> None]]
+    /\ col' = [col EXCEPT ![id] = None]
+    /\ labelIdx' = [labelIdx EXCEPT ![lb] = @ \cup {id}]
+    /\ UNCHANGED <<ends, etype, ep, buf, frozen, typeIdx, bulk>>
+
+\* set_column_property: the bulk-load way to give a stub node a property (column only, not the row map)
+SetColumnProp(n, v) ==
+    /\ LiveN(n)
+    /\ col' = [col EXCEPT ![n] = v]
+    /\ UNCHANGED <<node, ends, etype, ep, buf, frozen, labelIdx, typeIdx, bulk>>
+
+\* remove_edge_property
+RemoveEdgeProp(e) ==
+    /\ e \in EdgeIds
+    /\ ep' = IF LiveE(e) THEN [ep EXCEPT ![e] = None] ELSE ep
+    /\ UNCHANGED <<node, col, ends, etype, buf, frozen, labelIdx, typeIdx, bulk>>
+
+\* clear(): back to the empty store (ids restart as well: the allocator state lives outside this module)
+Clear ==
+    /\ node' = [n \in NodeIds |-> DeadNode] /\ col' = [n \in NodeIds |-> None]
+    /\ ends' = [e \in EdgeIds |-> NoEnds] /\ etype' = [e \in EdgeIds |-> Unset] /\ ep' = [e \in EdgeIds |-> None]
+    /\ buf' = {} /\ frozen' = [x \in Entry |-> 0]
+    /\ labelIdx' = [l \in Labels |-> {}] /\ typeIdx' = [t \in Types |-> {}] /\ bulk' = FALSE
+
 \* bulk-load stubs: the caller guarantees live endpoints; no index maintenance until FinishBulkLoad
 CreateEdgeStub(e, s, d, t) ==
     /\ LiveN(s) /\ LiveN(d)
